@@ -120,6 +120,18 @@ CHECKS = {
         "Standard decompressor = the Python bindings present; avro cells restricted to avro-mappable types.",
         "DESIGN.md 4/C11",
     ),
+    "C05": (
+        "exploration",
+        "model-based operation-sequence testing (Hypothesis): construct / setattr / failed setattr / _replace / "
+        "digest setters / pack-unpack histories with candidate values classed valid, must-reject, either",
+        "Generated histories of up to 30 (quick) / 50 (thorough) operations on one record over every scalar and list "
+        "field type; after each step the oracle checks the outcome class (valid accepted, unrepresentable rejected), "
+        "that a failed operation left the whole record's deep observation unchanged, that every slot is unset or an "
+        "instance of its declared type (list elements of the element type, timestamps aware, ranges respected, "
+        "digest components well-formed) and that the record can be packed.",
+        "Wrong-kind inputs the statement does not name may go either way; record/dynamic are pass-through types.",
+        "DESIGN.md 4/C05",
+    ),
 }
 
 NOT_APPLICABLE = {}
